@@ -193,6 +193,146 @@ theorem pm_ends {α : Type} [DecidableEq α] (nodes : List α) (edges m : List (
   intro v hv
   simpa using h.2 v hv
 
+/-! ### occurrences under the list operations of CMWPM's post-processing -/
+
+/-- contribution of one pair -/
+def occ1 {α : Type} [DecidableEq α] (x : α × α) (p : α) : Nat :=
+  (if x.1 = p then 1 else 0) + (if x.2 = p then 1 else 0)
+
+theorem occ_cons {α : Type} [DecidableEq α] (x : α × α) (l : List (α × α)) (p : α) :
+    occ (x :: l) p = occ1 x p + occ l p := by
+  unfold occ occ1
+  have : ends (x :: l) = x.1 :: x.2 :: ends l := by simp [ends]
+  rw [this, List.count_cons, List.count_cons]
+  by_cases h1 : x.1 = p <;> by_cases h2 : x.2 = p <;> simp [h1, h2] <;> omega
+
+theorem occ_nil {α : Type} [DecidableEq α] (p : α) : occ ([] : List (α × α)) p = 0 := rfl
+
+theorem occ1_le_of_mem {α : Type} [DecidableEq α] (x : α × α) (l : List (α × α)) (p : α) (h : x ∈ l) :
+    occ1 x p ≤ occ l p := by
+  induction l with
+  | nil => simp at h
+  | cons y ys ih =>
+    rw [occ_cons]
+    rcases List.mem_cons.mp h with rfl | h
+    · omega
+    · have := ih h; omega
+
+theorem occ_map_of {α β : Type} [DecidableEq α] [DecidableEq β] (g : α → β) (m : List (α × α)) (a : α) (p : β)
+    (h : ∀ v ∈ ends m, g v = p ↔ v = a) : occ (m.map fun x => (g x.1, g x.2)) p = occ m a := by
+  induction m with
+  | nil => rfl
+  | cons x l ih =>
+    have he : ends (x :: l) = x.1 :: x.2 :: ends l := by simp [ends]
+    rw [List.map_cons, occ_cons, occ_cons, ih (fun v hv => h v (by rw [he]; simp [hv]))]
+    congr 1
+    unfold occ1
+    have h1 := h x.1 (by rw [he]; simp)
+    have h2 := h x.2 (by rw [he]; simp)
+    simp only [h1, h2]
+
+theorem occ_filter {α : Type} [DecidableEq α] (f : α × α → Bool) (l : List (α × α)) (p : α)
+    (h : ∀ x ∈ l, f x = false → x.1 ≠ p ∧ x.2 ≠ p) : occ (l.filter f) p = occ l p := by
+  induction l with
+  | nil => rfl
+  | cons x l ih =>
+    have ih' := ih (fun y hy => h y (by simp [hy]))
+    by_cases hf : f x = true
+    · rw [List.filter_cons_of_pos hf, occ_cons, occ_cons, ih']
+    · have hf' : f x = false := by simpa using hf
+      rw [List.filter_cons_of_neg hf, occ_cons, ih']
+      have := h x (by simp) hf'
+      unfold occ1; simp [this.1, this.2]
+
+theorem occ_map_swap {α : Type} [DecidableEq α] (g : α × α → α × α) (l : List (α × α)) (p : α)
+    (h : ∀ x, g x = x ∨ g x = (x.2, x.1)) : occ (l.map g) p = occ l p := by
+  induction l with
+  | nil => rfl
+  | cons x l ih =>
+    rw [List.map_cons, occ_cons, occ_cons, ih]
+    congr 1
+    rcases h x with e | e <;> rw [e]
+    unfold occ1; simp only; omega
+
+theorem occ_dedup {α : Type} [DecidableEq α] (l : List (α × α)) (p : α) (h : occ l p ≤ 1) :
+    occ (dedup l) p = occ l p := by
+  induction l with
+  | nil => rfl
+  | cons x xs ih =>
+    rw [occ_cons] at h
+    have ih' := ih (by omega)
+    unfold dedup
+    split
+    · rename_i hx
+      have := occ1_le_of_mem x xs p ((mem_dedup xs x).mp hx)
+      rw [occ_cons, ih']; omega
+    · rw [occ_cons, occ_cons, ih']
+
+/-! ### building a perfect matching -/
+
+/-- pair consecutive elements -/
+def pairUp {α : Type} : List α → List (α × α)
+  | x :: y :: r => (x, y) :: pairUp r
+  | _ => []
+
+theorem ends_pairUp {α : Type} : ∀ (l : List α), l.length % 2 = 0 → ends (pairUp l) = l
+  | [], _ => rfl
+  | [_], h => by simp at h
+  | x :: y :: r, h => by
+    have : ends (pairUp (x :: y :: r)) = x :: y :: ends (pairUp r) := by simp [pairUp, ends]
+    rw [this, ends_pairUp r (by simp only [List.length_cons] at h; omega)]
+
+theorem pairUp_mem {α : Type} : ∀ (l : List α), l.Nodup → ∀ x ∈ pairUp l, x.1 ∈ l ∧ x.2 ∈ l ∧ x.1 ≠ x.2
+  | [], _, x, hx => by simp [pairUp] at hx
+  | [_], _, x, hx => by simp [pairUp] at hx
+  | a :: b :: r, hn, x, hx => by
+    simp only [pairUp, List.mem_cons] at hx
+    rw [List.nodup_cons, List.nodup_cons] at hn
+    rcases hx with rfl | hx
+    · refine ⟨by simp, by simp, ?_⟩
+      intro e; exact hn.1 (by simp only at e; simp [e])
+    · have := pairUp_mem r hn.2.2 x hx
+      exact ⟨by simp [this.1], by simp [this.2.1], this.2.2⟩
+
+theorem pairsOf_complete {α : Type} (l : List α) (a b : α) (ha : a ∈ l) (hb : b ∈ l) (hab : a ≠ b) :
+    (a, b) ∈ pairsOf l ∨ (b, a) ∈ pairsOf l := by
+  induction l with
+  | nil => simp at ha
+  | cons x xs ih =>
+    simp only [pairsOf, List.mem_append, List.mem_map, Prod.mk.injEq]
+    rw [List.mem_cons] at ha hb
+    rcases ha with rfl | ha <;> rcases hb with rfl | hb
+    · exact absurd rfl hab
+    · exact .inl (.inl ⟨b, hb, rfl, rfl⟩)
+    · exact .inr (.inl ⟨a, ha, rfl, rfl⟩)
+    · rcases ih ha hb with h | h
+      · exact .inl (.inr h)
+      · exact .inr (.inr h)
+
+theorem nodup_dedup {α : Type} [DecidableEq α] (l : List α) : (dedup l).Nodup := by
+  induction l with
+  | nil => simp [dedup]
+  | cons x xs ih =>
+    unfold dedup
+    split
+    · exact ih
+    · rename_i h; exact List.nodup_cons.mpr ⟨h, ih⟩
+
+/-- a list of pairs whose endpoints are a permutation of the (duplicate-free) node list and which are all edges is
+    a perfect matching -/
+theorem pm_of_perm {α : Type} [DecidableEq α] (nodes : List α) (edges m : List (α × α)) (hn : nodes.Nodup)
+    (hperm : (ends m).Perm nodes) (he : ∀ x ∈ m, (x.1, x.2) ∈ edges ∨ (x.2, x.1) ∈ edges) :
+    isPerfectMatchingOfGraph nodes edges m = true := by
+  unfold isPerfectMatchingOfGraph
+  simp only [Bool.and_eq_true, List.all_eq_true]
+  refine ⟨⟨?_, ?_⟩, ?_⟩
+  · intro x hx; simpa [isEdge] using he x hx
+  · intro v hv
+    rw [hperm.count_eq]
+    simpa using List.count_eq_one_of_mem hn hv
+  · intro v hv
+    simpa using (hperm.mem_iff).mp hv
+
 /-! ### planar lattice: operators act by XOR; `applyMates` is the XOR of the paths -/
 
 namespace PlanarL
@@ -453,6 +593,583 @@ theorem pm_occ (R C : Int) (H : Spec R C) (s : BVec) (t : Bool) (m : List ((Int 
   · rw [if_pos h, if_pos (this.mpr h)]
   · rw [if_neg h, if_neg (fun h' => h (this.mp h'))]
 
+/-! CMWPM: the graph of identity-hashed nodes and the post-processing of its matching -/
+
+theorem sortPair_cases (x : Idx2 × Idx2) : sortPair x = x ∨ sortPair x = (x.2, x.1) := by
+  unfold sortPair; split <;> simp
+
+theorem cm_nodes (ds : List (Int × Int)) (m : List (CNode × CNode))
+    (hm : isPerfectMatchingOfGraph (cmwpmNodes ds) (cmwpmEdges ds) m = true) :
+    ∀ v ∈ ends m, v.2 ∈ ds := by
+  intro v hv
+  have := pm_ends _ _ _ hm v hv
+  unfold cmwpmNodes at this
+  rw [List.mem_append, List.mem_map, List.mem_map] at this
+  rcases this with ⟨d, hd, rfl⟩ | ⟨d, hd, rfl⟩ <;> exact hd
+
+/-- every matched index pair that survives the post-processing is an admissible pair -/
+theorem cm_ok (R C : Int) (H : Spec R C) (s : BVec) (t : Bool) (m : List (CNode × CNode))
+    (hm : isPerfectMatchingOfGraph (cmwpmNodes (planarDefects R C s t)) (cmwpmEdges (planarDefects R C s t)) m = true) :
+    ∀ x ∈ cmwpmMatches R C m, Ok R C x.1 x.2 := by
+  have hds := fun d hd => defects_real R C H s t d hd
+  have hedge : ∀ a b : CNode, (a, b) ∈ cmwpmEdges (planarDefects R C s t) →
+      Ok R C (cnodeIndex R C a) (cnodeIndex R C b) := by
+    intro a b hab
+    unfold cmwpmEdges at hab
+    rw [List.mem_append, List.mem_append] at hab
+    rcases hab with (hab | hab) | hab
+    · have := mem_pairsOf _ a b hab
+      rw [List.mem_map, List.mem_map] at this
+      obtain ⟨⟨d1, h1, rfl⟩, ⟨d2, h2, rfl⟩⟩ := this
+      exact ⟨(hds d1 h1).2.trans (hds d2 h2).2.symm, .inl ⟨.inl (hds d1 h1).1, .inl (hds d2 h2).1⟩⟩
+    · have := mem_pairsOf _ a b hab
+      rw [List.mem_map, List.mem_map] at this
+      obtain ⟨⟨d1, h1, rfl⟩, ⟨d2, h2, rfl⟩⟩ := this
+      have v1 := vpT_spec R C H d1 (hds d1 h1).1
+      have v2 := vpT_spec R C H d2 (hds d2 h2).1
+      exact ⟨(v1.2.trans (hds d1 h1).2).trans ((v2.2.trans (hds d2 h2).2).symm),
+        .inl ⟨.inr v1.1, .inr v2.1⟩⟩
+    · rw [List.mem_map] at hab
+      obtain ⟨d, hd, he⟩ := hab
+      simp only [Prod.mk.injEq] at he
+      obtain ⟨rfl, rfl⟩ := he
+      have v := vpT_spec R C H d (hds d hd).1
+      exact ⟨v.2.symm, .inl ⟨.inl (hds d hd).1, .inr v.1⟩⟩
+  intro x hx
+  unfold cmwpmMatches at hx
+  rw [mem_dedup, List.mem_map] at hx
+  obtain ⟨y, hy, rfl⟩ := hx
+  rw [List.mem_filter, List.mem_map] at hy
+  obtain ⟨⟨z, hz, rfl⟩, _⟩ := hy
+  have hokz : Ok R C (cnodeIndex R C z.1) (cnodeIndex R C z.2) := by
+    rcases pm_edges _ _ _ hm z hz with h | h
+    · exact hedge _ _ h
+    · exact ok_symm R C _ _ (hedge _ _ h)
+  rcases sortPair_cases (cnodeIndex R C z.1, cnodeIndex R C z.2) with e | e <;> rw [e]
+  · exact hokz
+  · exact ok_symm R C _ _ hokz
+
+/-- after the post-processing an in-lattice plaquette is an endpoint exactly once when it is a defect of that type
+    and never otherwise (dropping virtual–virtual pairs, sorting and the `frozenset` change nothing for it) -/
+theorem cm_occ (R C : Int) (H : Spec R C) (s : BVec) (t : Bool) (m : List (CNode × CNode))
+    (hm : isPerfectMatchingOfGraph (cmwpmNodes (planarDefects R C s t)) (cmwpmEdges (planarDefects R C s t)) m = true)
+    (p : Int × Int) (hp : Real R C p) :
+    occ (cmwpmMatches R C m) p = if p ∈ planarDefects R C s t then 1 else 0 := by
+  have hds := fun d hd => defects_real R C H s t d hd
+  have hnodes := cm_nodes _ m hm
+  -- 1. index pairs: p occurs where the node (false, p) occurs
+  have h1 : occ (m.map fun x => (cnodeIndex R C x.1, cnodeIndex R C x.2)) p = occ m ((false, p) : CNode) := by
+    apply occ_map_of (cnodeIndex R C) m (false, p) p
+    intro v hv
+    obtain ⟨b, d⟩ := v
+    have hd := hnodes (b, d) hv
+    cases b
+    · simp [cnodeIndex]
+    · simp only [cnodeIndex, if_true, Prod.mk.injEq, Bool.true_eq_false, false_and, iff_false]
+      intro e
+      have := (virtual_out R C _ (vpT_spec R C H d (hds d hd).1).1).2
+      rw [e, hp.2] at this; cases this
+  -- 2. the perfect matching: (false, p) occurs once iff p is a defect
+  have h2 : occ m ((false, p) : CNode) = if p ∈ planarDefects R C s t then 1 else 0 := by
+    rw [pm_occ_gen _ _ _ hm]
+    have : ((false, p) : CNode) ∈ cmwpmNodes (planarDefects R C s t) ↔ p ∈ planarDefects R C s t := by
+      unfold cmwpmNodes; simp
+    by_cases h : p ∈ planarDefects R C s t
+    · rw [if_pos h, if_pos (this.mpr h)]
+    · rw [if_neg h, if_neg (fun h' => h (this.mp h'))]
+  -- 3. filter, sort, dedup
+  unfold cmwpmMatches
+  have h3 : occ (((m.map fun x => (cnodeIndex R C x.1, cnodeIndex R C x.2)).filter fun q =>
+      inBounds R C q.1.1 q.1.2 || inBounds R C q.2.1 q.2.2).map sortPair) p =
+      if p ∈ planarDefects R C s t then 1 else 0 := by
+    rw [occ_map_swap sortPair _ p sortPair_cases, occ_filter _ _ p ?_, h1, h2]
+    intro x _ hf
+    simp only [Bool.or_eq_false_iff] at hf
+    constructor
+    · intro e; rw [e, hp.2] at hf; cases hf.1
+    · intro e; rw [e, hp.2] at hf; cases hf.2
+  rw [occ_dedup _ p (by rw [h3]; split <;> omega), h3]
+
+/-! the modelled graph always admits a perfect matching -/
+
+theorem extraV_not_virtual (R C : Int) (t : Bool) : ¬ Virtual R C (extraV t) := by
+  intro h
+  cases t
+  · rcases h.2 with ⟨h1, _⟩ | ⟨_, _, h2, _⟩
+    · revert h1; decide
+    · simp [extraV] at h2
+  · rcases h.2 with ⟨_, _, h2, _⟩ | ⟨h1, _⟩
+    · simp [extraV] at h2
+    · revert h1; decide
+
+theorem vnodes_nodup (R C : Int) (H : Spec R C) (t : Bool) (ds : List (Int × Int))
+    (hds : ∀ d ∈ ds, Real R C d ∧ isPrimal d.1 d.2 = t) : (planarVNodes R C t ds).Nodup := by
+  unfold planarVNodes
+  simp only
+  split
+  · rw [List.nodup_append]
+    refine ⟨nodup_dedup _, by simp, ?_⟩
+    intro a ha b hb
+    simp only [List.mem_singleton] at hb
+    subst hb
+    rw [mem_dedup, List.mem_map] at ha
+    obtain ⟨d, hd, rfl⟩ := ha
+    intro e
+    exact extraV_not_virtual R C t (e ▸ (vpT_spec R C H d (hds d hd).1).1)
+  · exact nodup_dedup _
+
+theorem vnodes_parity (R C : Int) (t : Bool) (ds : List (Int × Int)) :
+    (ds.length + (planarVNodes R C t ds).length) % 2 = 0 := by
+  unfold planarVNodes
+  simp only
+  split
+  · rw [List.length_append]; simp only [List.length_singleton]; omega
+  · omega
+
+theorem vpT_mem_vnodes (R C : Int) (t : Bool) (ds : List (Int × Int)) (d : Int × Int) (hd : d ∈ ds) :
+    vpT R C d ∈ planarVNodes R C t ds := by
+  have : vpT R C d ∈ dedup (ds.map (vpT R C)) := by rw [mem_dedup]; exact List.mem_map_of_mem hd
+  unfold planarVNodes
+  simp only
+  split
+  · exact List.mem_append_left _ this
+  · exact this
+
+/-- **the modelled graph has a perfect matching** (so a perfect-matching routine never comes back empty-handed):
+    pair the defects among themselves, an odd one out with its own virtual plaquette, and the remaining virtual
+    nodes among themselves — their number is even precisely because of the extra node on odd totals -/
+theorem graph_has_pm (R C : Int) (H : Spec R C) (s : BVec) (t : Bool) :
+    ∃ m, isPerfectMatchingOfGraph (planarNodes R C t (planarDefects R C s t))
+      (planarEdges R C t (planarDefects R C s t)) m = true := by
+  have hds := fun d hd => defects_real R C H s t d hd
+  have hdn : (planarDefects R C s t).Nodup := by
+    unfold planarDefects
+    exact (Pairing.pick_nodup _ _ H.plaquetteIndices_spec.1).filter _
+  have hvn := vnodes_nodup R C H t _ hds
+  have hpar := vnodes_parity R C t (planarDefects R C s t)
+  have hdisj : ∀ a ∈ planarDefects R C s t, ∀ b ∈ planarVNodes R C t (planarDefects R C s t), a ≠ b := by
+    intro a ha b hb e
+    have := (vnodes_out R C H t _ hds b hb).1.2
+    rw [← e, (hds a ha).1.2] at this; cases this
+  have hnn : (planarNodes R C t (planarDefects R C s t)).Nodup := by
+    unfold planarNodes; rw [List.nodup_append]; exact ⟨hdn, hvn, hdisj⟩
+  generalize hD : planarDefects R C s t = ds at *
+  generalize hV : planarVNodes R C t ds = vs at *
+  have hedgeD : ∀ a b : Int × Int, a ∈ ds → b ∈ ds → a ≠ b →
+      (a, b) ∈ planarEdges R C t ds ∨ (b, a) ∈ planarEdges R C t ds := by
+    intro a b ha hb hab
+    unfold planarEdges
+    rcases pairsOf_complete ds a b ha hb hab with h | h
+    · exact .inl (List.mem_append_left _ (List.mem_append_right _ h))
+    · exact .inr (List.mem_append_left _ (List.mem_append_right _ h))
+  have hedgeV : ∀ a b : Int × Int, a ∈ vs → b ∈ vs → a ≠ b →
+      (a, b) ∈ planarEdges R C t ds ∨ (b, a) ∈ planarEdges R C t ds := by
+    intro a b ha hb hab
+    unfold planarEdges
+    rw [hV]
+    rcases pairsOf_complete vs a b ha hb hab with h | h
+    · exact .inl (List.mem_append_right _ h)
+    · exact .inr (List.mem_append_right _ h)
+  by_cases hev : ds.length % 2 = 0
+  · -- even number of defects: defects among themselves, virtual nodes among themselves
+    refine ⟨pairUp ds ++ pairUp vs, pm_of_perm _ _ _ hnn ?_ ?_⟩
+    · unfold planarNodes
+      rw [hV, ends_append, ends_pairUp ds hev, ends_pairUp vs (by omega)]
+    · intro x hx
+      rw [List.mem_append] at hx
+      rcases hx with hx | hx
+      · have := pairUp_mem ds hdn x hx; exact hedgeD _ _ this.1 this.2.1 this.2.2
+      · have := pairUp_mem vs hvn x hx; exact hedgeV _ _ this.1 this.2.1 this.2.2
+  · -- odd: the first defect goes to its own virtual plaquette
+    cases ds with
+    | nil => simp at hev
+    | cons d0 ds' =>
+      have hv0 : vpT R C d0 ∈ vs := by rw [← hV]; exact vpT_mem_vnodes R C t _ d0 (by simp)
+      rw [List.nodup_cons] at hdn
+      have hlen' : ds'.length % 2 = 0 := by simp only [List.length_cons] at hev; omega
+      have hlenv : (vs.erase (vpT R C d0)).length % 2 = 0 := by
+        rw [List.length_erase_of_mem hv0]
+        have : vs.length ≥ 1 := List.length_pos_of_mem hv0
+        simp only [List.length_cons] at hpar; omega
+      refine ⟨(d0, vpT R C d0) :: (pairUp ds' ++ pairUp (vs.erase (vpT R C d0))), pm_of_perm _ _ _ hnn ?_ ?_⟩
+      · unfold planarNodes
+        rw [hV]
+        have : ends ((d0, vpT R C d0) :: (pairUp ds' ++ pairUp (vs.erase (vpT R C d0)))) =
+            d0 :: vpT R C d0 :: (ds' ++ vs.erase (vpT R C d0)) := by
+          have e : ∀ (x : (Int × Int) × (Int × Int)) (l : List ((Int × Int) × (Int × Int))),
+              ends (x :: l) = x.1 :: x.2 :: ends l := by intro x l; simp [ends]
+          rw [e, ends_append, ends_pairUp ds' hlen', ends_pairUp _ hlenv]
+        rw [this, List.cons_append]
+        apply List.Perm.cons
+        have p1 : (vpT R C d0 :: (ds' ++ vs.erase (vpT R C d0))).Perm (ds' ++ vpT R C d0 :: vs.erase (vpT R C d0)) :=
+          List.perm_middle.symm
+        exact p1.trans (List.Perm.append_left _ (List.perm_cons_erase hv0).symm)
+      · intro x hx
+        rw [List.mem_cons, List.mem_append] at hx
+        rcases hx with rfl | hx | hx
+        · left
+          unfold planarEdges
+          exact List.mem_append_left _ (List.mem_append_left _ (List.mem_map.mpr ⟨d0, by simp, rfl⟩))
+        · have := pairUp_mem ds' hdn.2 x hx
+          exact hedgeD _ _ (by simp [this.1]) (by simp [this.2.1]) this.2.2
+        · have := pairUp_mem _ (hvn.erase _) x hx
+          exact hedgeV _ _ (List.mem_of_mem_erase this.1) (List.mem_of_mem_erase this.2.1) this.2.2
+
 end PlanarL
+
+/-! ### rotated planar lattice: the runs of `sample_recovery` -/
+
+namespace RotatedPlanarL
+open Qec.RotatedPlanar
+
+def nq (R C : Int) : Nat := (nQubits R C).toNat
+
+theorem identity_length (R C : Int) : (identity R C).length = 2 * nq R C := by simp [identity, nq, zeros]
+
+theorem site_length (R C : Int) (op : P1) (v : BVec) (xy : Int × Int) : (site R C op v xy).length = v.length := by
+  unfold site; split
+  · exact applyOp_length _ _ _ _
+  · rfl
+
+theorem site_xor (R C : Int) (op : P1) (v : BVec) (xy : Int × Int) (hv : v.length = 2 * nq R C) :
+    site R C op v xy = xorV v (site R C op (zeros (2 * nq R C)) xy) := by
+  unfold site; split
+  · have := applyOp_eq_xorV (nQubits R C).toNat op v (flatten R C xy.1 xy.2).toNat
+    rw [hv] at this; exact this
+  · rw [xorV_zeros_right _ v hv]
+
+theorem sites_length (R C : Int) (op : P1) (l : List (Int × Int)) (v : BVec) (hv : v.length = 2 * nq R C) :
+    (sites R C op v l).length = 2 * nq R C :=
+  foldl_step_length (2 * nq R C) (site R C op) (fun v x h => by rw [site_length, h]) l v hv
+
+theorem sites_xor (R C : Int) (op : P1) (l : List (Int × Int)) (v : BVec) (hv : v.length = 2 * nq R C) :
+    sites R C op v l = xorV v (sites R C op (zeros (2 * nq R C)) l) :=
+  foldl_step_xor (2 * nq R C) (site R C op) (fun v x h => by rw [site_length, h])
+    (fun v x h => site_xor R C op v x h) l v hv
+
+theorem stabilizers_length (R C : Int) : ∀ s ∈ stabilizers R C, s.length = 2 * nq R C := by
+  intro s hs
+  simp only [stabilizers, List.mem_map] at hs
+  obtain ⟨xy, _, rfl⟩ := hs
+  unfold plaquette
+  split
+  · exact sites_length R C _ _ _ (identity_length R C)
+  · exact identity_length R C
+
+theorem stabilizers_plaqs (R C : Int) : (stabilizers R C).length = (plaquetteIndices R C).length := by
+  simp [stabilizers]
+
+theorem run_length (R C : Int) (v : BVec) (p : Int × Int) (hv : v.length = 2 * nq R C) :
+    (rpRunApply R C v p).length = 2 * nq R C := sites_length R C _ _ v hv
+
+theorem run_xor (R C : Int) (v : BVec) (p : Int × Int) (hv : v.length = 2 * nq R C) :
+    rpRunApply R C v p = xorV v (rpRunApply R C (zeros (2 * nq R C)) p) := sites_xor R C _ _ v hv
+
+/-- `sample_recovery` is the XOR of the individual runs -/
+theorem sample_eq (R C : Int) (s : BVec) :
+    rotatedPlanarSampleRecovery R C s =
+      xorAll (2 * nq R C) ((Pairing.pick (plaquetteIndices R C) s).map (rpRunApply R C (identity R C))) := by
+  have : identity R C = zeros (2 * nq R C) := by simp [identity, nq]
+  unfold rotatedPlanarSampleRecovery
+  rw [this]
+  exact foldl_step_eq_xorAll (2 * nq R C) (rpRunApply R C) (fun v x h => run_length R C v x h)
+    (fun v x h => run_xor R C v x h) _
+
+/-- **hypothesis** (the run-to-boundary lemma of the rotated planar lattice; C15-style, C07 for `nodup`): the run
+    from plaquette `p` to the left / bottom boundary anticommutes with exactly the stabilizer of `p` -/
+structure Spec (R C : Int) : Prop where
+  plaquetteIndices_nodup : (plaquetteIndices R C).Nodup
+  run_syndrome : ∀ p ∈ plaquetteIndices R C,
+    synd (stabilizers R C) (rpRunApply R C (identity R C) p) = (plaquetteIndices R C).map fun q => decide (q = p)
+
+end RotatedPlanarL
+
+/-! ### toric lattice -/
+
+namespace ToricL
+open Qec.Toric
+
+def nq (R C : Int) : Nat := (nQubits R C).toNat
+
+theorem identity_length (R C : Int) : (identity R C).length = 2 * nq R C := by simp [identity, nq, zeros]
+
+theorem site_length (R C : Int) (op : P1) (v : BVec) (i : Idx) : (site R C op v i).length = v.length :=
+  applyOp_length _ _ _ _
+
+theorem site_xor (R C : Int) (op : P1) (v : BVec) (i : Idx) (hv : v.length = 2 * nq R C) :
+    site R C op v i = xorV v (site R C op (zeros (2 * nq R C)) i) := by
+  unfold site
+  have := applyOp_eq_xorV (nQubits R C).toNat op v (flatten R C i).toNat
+  rw [hv] at this; exact this
+
+theorem sites_length (R C : Int) (op : P1) (l : List Idx) (v : BVec) (hv : v.length = 2 * nq R C) :
+    (sites R C op v l).length = 2 * nq R C :=
+  foldl_step_length (2 * nq R C) (site R C op) (fun v x h => by rw [site_length, h]) l v hv
+
+theorem sites_xor (R C : Int) (op : P1) (l : List Idx) (v : BVec) (hv : v.length = 2 * nq R C) :
+    sites R C op v l = xorV v (sites R C op (identity R C) l) :=
+  foldl_step_xor (2 * nq R C) (site R C op) (fun v x h => by rw [site_length, h])
+    (fun v x h => site_xor R C op v x h) l v hv
+
+theorem stabilizers_length (R C : Int) : ∀ s ∈ stabilizers R C, s.length = 2 * nq R C := by
+  intro s hs
+  simp only [stabilizers, List.mem_map] at hs
+  obtain ⟨i, _, rfl⟩ := hs
+  exact sites_length R C _ _ _ (identity_length R C)
+
+theorem stabilizers_plaqs (R C : Int) : (stabilizers R C).length = (indices R C).length := by
+  simp [stabilizers]
+
+def pathT (R C : Int) (a b : Idx) : BVec :=
+  match path R C (identity R C) a b with
+  | .ok v => v
+  | .error _ => identity R C
+
+theorem pathT_length (R C : Int) (a b : Idx) : (pathT R C a b).length = 2 * nq R C := by
+  unfold pathT path
+  cases translation R C a b with
+  | error e => exact identity_length R C
+  | ok t => exact sites_length R C _ _ _ (identity_length R C)
+
+theorem path_acc (R C : Int) (v w : BVec) (a b : Idx) (hv : v.length = 2 * nq R C)
+    (h : path R C (identity R C) a b = .ok w) : path R C v a b = .ok (xorV v w) := by
+  unfold path at h ⊢
+  cases ht : translation R C a b with
+  | error e => rw [ht] at h; cases h
+  | ok t =>
+    rw [ht] at h
+    simp only [Except.ok.injEq] at h ⊢
+    rw [← h]
+    exact sites_xor R C _ _ v hv
+
+theorem pathT_of_ok (R C : Int) (a b : Idx) (w : BVec) (h : path R C (identity R C) a b = .ok w) :
+    pathT R C a b = w := by
+  unfold pathT; rw [h]
+
+theorem foldlM_paths (R C : Int) (mates : List (Idx × Idx))
+    (h : ∀ x ∈ mates, ∃ w, path R C (identity R C) x.1 x.2 = .ok w) :
+    ∀ v : BVec, v.length = 2 * nq R C →
+      mates.foldlM (fun v ab => path R C v ab.1 ab.2) v =
+        .ok ((mates.map fun x => pathT R C x.1 x.2).foldl xorV v) := by
+  induction mates with
+  | nil => intro v _; rfl
+  | cons x l ih =>
+    intro v hv
+    obtain ⟨w, hw⟩ := h x (by simp)
+    rw [List.foldlM_cons, path_acc R C v w x.1 x.2 hv hw]
+    have hwl : w.length = 2 * nq R C := by rw [← pathT_of_ok R C _ _ w hw]; exact pathT_length R C _ _
+    have := ih (fun y hy => h y (by simp [hy])) (xorV v w) (by rw [xorV_length _ _ (by rw [hv, hwl]), hv])
+    simp only [List.map_cons, List.foldl_cons, pathT_of_ok R C _ _ w hw]
+    exact this
+
+theorem applyMates_eq (R C : Int) (mates : List (Idx × Idx))
+    (h : ∀ x ∈ mates, ∃ w, path R C (identity R C) x.1 x.2 = .ok w) :
+    applyMates R C mates = .ok (xorAll (2 * nq R C) (mates.map fun x => pathT R C x.1 x.2)) := by
+  unfold applyMates xorAll
+  exact foldlM_paths R C mates h (identity R C) (identity_length R C)
+
+/-- **hypothesis** (C15 toric path/endpoint lemma; C07 for `nodup`): the path between two plaquettes of the same
+    lattice exists and anticommutes with exactly its two endpoints (with nothing when they coincide) -/
+structure Spec (R C : Int) : Prop where
+  indices_nodup : (indices R C).Nodup
+  path_syndrome_vector : ∀ a ∈ indices R C, ∀ b ∈ indices R C, a.1 = b.1 →
+    ∃ v, path R C (identity R C) a b = .ok v ∧
+      synd (stabilizers R C) v = (indices R C).map fun p => (decide (p = a) != decide (p = b))
+
+def Ok (R C : Int) (a b : Idx) : Prop := a ∈ indices R C ∧ b ∈ indices R C ∧ a.1 = b.1
+
+def pathSpec (R C : Int) (H : Spec R C) : Pairing.PathSpec Idx where
+  n := nq R C
+  S := stabilizers R C
+  plaqs := indices R C
+  path := pathT R C
+  ok := Ok R C
+  S_plaqs := stabilizers_plaqs R C
+  S_len := stabilizers_length R C
+  path_len := fun a b _ => pathT_length R C a b
+  path_synd := fun a b h => by
+    obtain ⟨w, hw, hs⟩ := H.path_syndrome_vector a h.1 b h.2.1 h.2.2
+    rw [pathT_of_ok R C a b w hw]; exact hs
+
+theorem mem_toricDefects (R C : Int) (s : BVec) (l : Int) (p : Idx) :
+    p ∈ toricDefects R C s l ↔ p ∈ Pairing.pick (indices R C) s ∧ p.1 = l := by
+  unfold toricDefects
+  rw [List.mem_filter]
+  have : syndromeToPlaquettes R C s = Pairing.pick (indices R C) s := rfl
+  rw [this]; simp
+
+theorem indices_lattice (R C : Int) (p : Idx) (hp : p ∈ indices R C) : p.1 = 0 ∨ p.1 = 1 := by
+  unfold indices at hp
+  simp only [List.mem_flatMap, List.mem_range, List.mem_map] at hp
+  obtain ⟨l, hl, r, _, c, _, rfl⟩ := hp
+  have : l = 0 ∨ l = 1 := by omega
+  rcases this with rfl | rfl <;> simp
+
+/-- with an even number of defects the node set of the lattice graph is the defect list -/
+theorem toricNodes_even (ds : List Idx) (h : ds.length % 2 = 0) : toricNodes ds = ds := by
+  unfold toricNodes
+  split
+  · rename_i hlt
+    have : ds.length = 0 := by omega
+    rw [List.length_eq_zero_iff.mp this]
+  · rfl
+
+theorem pm_ok (R C : Int) (s : BVec) (l : Int) (m : List (Idx × Idx))
+    (hm : isPerfectMatchingOfGraph (toricNodes (toricDefects R C s l)) (toricEdges (toricDefects R C s l)) m = true) :
+    ∀ x ∈ m, Ok R C x.1 x.2 := by
+  have hd : ∀ d ∈ toricDefects R C s l, d ∈ indices R C ∧ d.1 = l := by
+    intro d hd
+    rw [mem_toricDefects] at hd
+    exact ⟨Pairing.pick_subset _ _ d hd.1, hd.2⟩
+  have hedge : ∀ a b : Idx, (a, b) ∈ toricEdges (toricDefects R C s l) → Ok R C a b := by
+    intro a b hab
+    have := mem_pairsOf _ a b hab
+    exact ⟨(hd a this.1).1, (hd b this.2).1, (hd a this.1).2.trans (hd b this.2).2.symm⟩
+  intro x hx
+  rcases pm_edges _ _ _ hm x hx with h | h
+  · exact hedge _ _ h
+  · have := hedge _ _ h
+    exact ⟨this.2.1, this.1, this.2.2.symm⟩
+
+/-- with an even number of defects the complete graph on them has a perfect matching -/
+theorem graph_has_pm (R C : Int) (H : Spec R C) (s : BVec) (l : Int)
+    (hev : (toricDefects R C s l).length % 2 = 0) :
+    ∃ m, isPerfectMatchingOfGraph (toricNodes (toricDefects R C s l)) (toricEdges (toricDefects R C s l)) m = true := by
+  have hdn : (toricDefects R C s l).Nodup := by
+    unfold toricDefects
+    exact (Pairing.pick_nodup _ _ H.indices_nodup).filter _
+  rw [toricNodes_even _ hev]
+  refine ⟨pairUp (toricDefects R C s l), pm_of_perm _ _ _ hdn ?_ ?_⟩
+  · rw [ends_pairUp _ hev]
+  · intro x hx
+    have := pairUp_mem _ hdn x hx
+    exact pairsOf_complete _ _ _ this.1 this.2.1 this.2.2
+
+end ToricL
+
+/-! ### colour 6.6.6 lattice: the runs of `sample_recovery` -/
+
+namespace Color666L
+open Qec.Color666
+
+def nq (L : Int) : Nat := (nQubits L).toNat
+
+theorem identity_length (L : Int) : (identity L).length = 2 * nq L := by simp [identity, nq, zeros]
+
+theorem site_length (L : Int) (op : P1) (v : BVec) (rc : Int × Int) : (site L op v rc).length = v.length := by
+  unfold site; split
+  · exact applyOp_length _ _ _ _
+  · rfl
+
+theorem site_xor (L : Int) (op : P1) (v : BVec) (rc : Int × Int) (hv : v.length = 2 * nq L) :
+    site L op v rc = xorV v (site L op (zeros (2 * nq L)) rc) := by
+  unfold site; split
+  · have := applyOp_eq_xorV (nQubits L).toNat op v (flatten rc.1 rc.2).toNat
+    rw [hv] at this; exact this
+  · rw [xorV_zeros_right _ v hv]
+
+theorem sites_length (L : Int) (op : P1) (l : List (Int × Int)) (v : BVec) (hv : v.length = 2 * nq L) :
+    (sites L op v l).length = 2 * nq L :=
+  foldl_step_length (2 * nq L) (site L op) (fun v x h => by rw [site_length, h]) l v hv
+
+theorem sites_xor (L : Int) (op : P1) (l : List (Int × Int)) (v : BVec) (hv : v.length = 2 * nq L) :
+    sites L op v l = xorV v (sites L op (zeros (2 * nq L)) l) :=
+  foldl_step_xor (2 * nq L) (site L op) (fun v x h => by rw [site_length, h])
+    (fun v x h => site_xor L op v x h) l v hv
+
+theorem stabilizers_length (L : Int) : ∀ s ∈ stabilizers L, s.length = 2 * nq L := by
+  intro s hs
+  simp only [stabilizers, List.mem_append, List.mem_map] at hs
+  rcases hs with ⟨rc, _, rfl⟩ | ⟨rc, _, rfl⟩ <;> exact sites_length L _ _ _ (identity_length L)
+
+/-- a stabilizer generator: `(false, p)` the X-type, `(true, p)` the Z-type plaquette operator of `p` -/
+abbrev CNodeS := Bool × (Int × Int)
+
+/-- the generators in the order of the rows of `stabilizers` -/
+def cplaqs (L : Int) : List CNodeS :=
+  (plaquetteIndices L).map (fun p => (false, p)) ++ (plaquetteIndices L).map (fun p => (true, p))
+
+theorem stabilizers_plaqs (L : Int) : (stabilizers L).length = (cplaqs L).length := by
+  simp [stabilizers, cplaqs]
+
+/-- the run correcting generator `x`: a Z-run for an X-type defect, an X-run for a Z-type defect -/
+def crunApply (L : Int) (v : BVec) (x : CNodeS) : BVec := colorRunApply L (if x.1 then P1.X else P1.Z) v x.2
+
+/-- the defects as generators -/
+def cdefects (L : Int) (s : BVec) : List CNodeS :=
+  (syndromeToPlaquettes L s).1.map (fun p => (false, p)) ++ (syndromeToPlaquettes L s).2.map (fun p => (true, p))
+
+theorem run_length (L : Int) (v : BVec) (x : CNodeS) (hv : v.length = 2 * nq L) :
+    (crunApply L v x).length = 2 * nq L := sites_length L _ _ v hv
+
+theorem run_xor (L : Int) (v : BVec) (x : CNodeS) (hv : v.length = 2 * nq L) :
+    crunApply L v x = xorV v (crunApply L (zeros (2 * nq L)) x) := sites_xor L _ _ v hv
+
+theorem sample_eq (L : Int) (s : BVec) :
+    color666SampleRecovery L s = xorAll (2 * nq L) ((cdefects L s).map (crunApply L (identity L))) := by
+  have hid : identity L = zeros (2 * nq L) := by simp [identity, nq]
+  have : color666SampleRecovery L s = (cdefects L s).foldl (crunApply L) (identity L) := by
+    unfold color666SampleRecovery cdefects
+    simp only [List.foldl_append, List.foldl_map]
+    rfl
+  rw [this, hid]
+  exact foldl_step_eq_xorAll (2 * nq L) (crunApply L) (fun v x h => run_length L v x h)
+    (fun v x h => run_xor L v x h) _
+
+/-- **hypothesis** (the run-to-boundary lemma of the colour 6.6.6 lattice; C07 for `nodup`): the run from
+    plaquette `p` to the boundary of its colour, made of Z (resp. X) operators, anticommutes with exactly the
+    X-type (resp. Z-type) generator of `p` -/
+structure Spec (L : Int) : Prop where
+  plaquetteIndices_nodup : (plaquetteIndices L).Nodup
+  run_syndrome : ∀ x ∈ cplaqs L,
+    synd (stabilizers L) (crunApply L (identity L) x) = (cplaqs L).map fun q => decide (q = x)
+
+theorem cdefects_nodup (L : Int) (s : BVec) (h : (plaquetteIndices L).Nodup) : (cdefects L s).Nodup := by
+  unfold cdefects
+  rw [List.nodup_append]
+  refine ⟨?_, ?_, ?_⟩
+  · exact (Pairing.pick_nodup _ _ h).map (fun a b e => by simpa using e)
+  · exact (Pairing.pick_nodup _ _ h).map (fun a b e => by simpa using e)
+  · intro a ha b hb
+    rw [List.mem_map] at ha hb
+    obtain ⟨p, _, rfl⟩ := ha
+    obtain ⟨q, _, rfl⟩ := hb
+    simp
+
+theorem cdefects_subset (L : Int) (s : BVec) : ∀ x ∈ cdefects L s, x ∈ cplaqs L := by
+  intro x hx
+  unfold cdefects at hx
+  unfold cplaqs
+  rw [List.mem_append, List.mem_map, List.mem_map] at hx
+  rw [List.mem_append, List.mem_map, List.mem_map]
+  rcases hx with ⟨p, hp, rfl⟩ | ⟨p, hp, rfl⟩
+  · exact .inl ⟨p, Pairing.pick_subset _ _ p hp, rfl⟩
+  · exact .inr ⟨p, Pairing.pick_subset _ _ p hp, rfl⟩
+
+/-- the tagged defect list determines the syndrome vector (`hsplit` into the X- and Z-halves) -/
+theorem map_mem_cdefects (L : Int) (s : BVec) (hn : (plaquetteIndices L).Nodup)
+    (hl : s.length = 2 * (plaquetteIndices L).length) :
+    ((cplaqs L).map fun q => decide (q ∈ cdefects L s)) = s := by
+  have hh : s.length / 2 = (plaquetteIndices L).length := by omega
+  have e1 : ((plaquetteIndices L).map fun p => decide (((false, p) : CNodeS) ∈ cdefects L s)) =
+      s.take (s.length / 2) := by
+    rw [← Pairing.map_mem_pick (plaquetteIndices L) (s.take (s.length / 2)) hn (by rw [List.length_take]; omega)]
+    apply List.map_congr_left; intro p _
+    unfold cdefects syndromeToPlaquettes
+    simp [Pairing.pick]
+  have e2 : ((plaquetteIndices L).map fun p => decide (((true, p) : CNodeS) ∈ cdefects L s)) =
+      s.drop (s.length / 2) := by
+    rw [← Pairing.map_mem_pick (plaquetteIndices L) (s.drop (s.length / 2)) hn (by rw [List.length_drop]; omega)]
+    apply List.map_congr_left; intro p _
+    unfold cdefects syndromeToPlaquettes
+    simp [Pairing.pick]
+  unfold cplaqs
+  rw [List.map_append, List.map_map, List.map_map]
+  have : s = s.take (s.length / 2) ++ s.drop (s.length / 2) := (List.take_append_drop _ _).symm
+  conv => rhs; rw [this]
+  rw [← e1, ← e2]
+  rfl
+
+end Color666L
 
 end Qec.Dec
